@@ -283,6 +283,28 @@ def main():
     lines = [l for l, _ in pairs]
     impl = [o for _, o in pairs]
     model = run_driver(lines)
+    # the same lines on a build WITHOUT overflow checks / debug assertions (wrapping arithmetic): the outcomes must
+    # still be the model's (quick: the property's own first suite; thorough: all its suites)
+    profile_runs = []
+    for prof in spec.get("extra_profiles", []):
+        ok_p, exe_p, plog = build_harness(prof)
+        if not ok_p:
+            rp = write_replay(prop, seed, "harness-build", {"log": plog[-4000:], "profile": prof,
+                              "broken": "harness no longer builds against /repo (correspondence broken)"})
+            print(f"VIOLATION property={prop} replay={rp} no-failing-input-found")
+            return 1
+        psuites = spec["suites"] if tier == "thorough" else spec["suites"][:1]
+        plines = [l for l in lines if True]
+        if tier != "thorough":
+            n0 = len(corpus_lines)
+            first = harness_gen(exe_p, psuites[0], tier, seed)
+            plines = corpus_lines + [l for l, _ in first]
+            pimpl = (harness_eval(exe_p, corpus_lines) if corpus_lines else []) + [o for _, o in first]
+            pmodel = model[:n0 + len(first)]
+        else:
+            pimpl = harness_eval(exe_p, plines)
+            pmodel = model
+        profile_runs.append((prof, plines, pimpl, pmodel))
 
     # 4. classify
     open_f = [f for f in findings if f["status"] == "open"]
@@ -306,6 +328,15 @@ def main():
             seen_findings.setdefault(hit["id"], (hit, l, a, b))
         else:
             diffs.append((l, a, b, "disagreement"))
+
+    for prof, plines, pimpl, pmodel in profile_runs:
+        for l, a, b in zip(plines, pimpl, pmodel):
+            if a == b or R.compare(prop, l, a, b) is True:
+                continue
+            if any(R.in_region(f["region"], l, a, b) for f in open_f):
+                continue
+            diffs.append((l, a + f" [profile {prof}]", b, "disagreement-" + prof))
+        notes.append(f"profile {prof} (no overflow checks, no debug assertions): {len(plines)} lines re-evaluated")
 
     # witnesses of open findings must still fail (else: note, not an alarm)
     for f in open_f:
